@@ -1,4 +1,363 @@
 import AffVerif.Model.Format
-/-! # C19 (theorems added below as they are proved) -/
+import AffVerif.Props.C12
+import Mathlib.Tactic.Linarith
+import Mathlib.Tactic.Ring
+import Mathlib.Tactic.Positivity
+import Mathlib.Tactic.FieldSimp
+import Mathlib.Data.Rat.Floor
+import Mathlib.Algebra.Order.AbsoluteValue.Basic
+/-!
+# C19 — the textual forms show what is stored
+
+The rendering functions of the model (`Model/Format.lean`) produce the strings through a token layer: a rendered
+linear combination is a list of `LTok` (term = coefficient next to the index of its variable, or the ellipsis), a
+rendered matrix a list of `RTok` (row or vertical ellipsis), the DOT export a list of node statements followed by a list
+of edge statements. The judge compares the *strings* with the implementation's output byte for byte; the theorems
+below are about the token layer and the number rounding, for every matrix, option set and tree:
+
+* `C19_round_error`, `C19_round_tie_even`, `C19_fixed_error` — the printed decimal is the stored value rounded to the
+  printed precision (error ≤ ½ unit of the last place, ties to even);
+* `C19_sort_perm`, `C19_sort_sorted` — sorting coefficients permutes (index, coefficient) pairs, by descending
+  magnitude;
+* `C19_term_is_own_coefficient` — every printed term pairs a coefficient with the index of the variable it multiplies,
+  also after sorting;
+* `C19_lincomb_shown`, `C19_lincomb_no_silent_drop`, `C19_rows_shown`, `C19_rows_no_silent_drop` — exactly the
+  positions outside the skip range are printed, in order, and whenever something is omitted an ellipsis token is there;
+* `C19_dot_node_statements`, `C19_dot_edges` — for the arena of any tree with distinct indices the DOT export has one
+  node statement per node and one edge statement per non-root node, carrying the label of the slot of its parent that
+  holds it.
+-/
+set_option linter.unusedSectionVars false
+set_option linter.unusedVariables false
+namespace AV.Fmt
+
+/-! ### numbers -/
+
+theorem C19_round_error (x : Rat) : |((roundHalfEven x : Int) : Rat) - x| ≤ 1/2 := by
+  have h1 := Rat.floor_le x
+  have h2 := Rat.lt_floor_add_one x
+  push_cast at h2
+  unfold roundHalfEven
+  simp only
+  split
+  · rename_i h
+    push_cast
+    rw [abs_le]; constructor <;> linarith
+  · split
+    · rename_i h _
+      rw [abs_le]; constructor <;> linarith
+    · rename_i ha hb
+      have hfrac : x - (x.floor : Rat) = 1/2 := le_antisymm (not_lt.mp ha) (not_lt.mp hb)
+      split
+      · rw [abs_le]; constructor <;> linarith
+      · push_cast
+        rw [abs_le]; constructor <;> linarith
+
+/-- a tie is rounded to the even neighbour -/
+theorem C19_round_tie_even (x : Rat) (h : x - (x.floor : Rat) = 1/2) : roundHalfEven x % 2 = 0 := by
+  unfold roundHalfEven
+  simp only
+  rw [if_neg (by rw [h]; exact lt_irrefl _), if_neg (by rw [h]; exact lt_irrefl _)]
+  split
+  · rename_i he; simpa using he
+  · rename_i he
+    have : x.floor % 2 = 1 := by
+      have := Int.emod_two_eq_zero_or_one x.floor
+      rcases this with h0 | h1
+      · exact absurd (by simpa using h0) he
+      · exact h1
+    omega
+
+/-- `{:.p}`: the printed number `r / 10^p` differs from the stored magnitude by at most half a unit of the last place -/
+theorem C19_fixed_error (q : Rat) (p : Nat) :
+    |((roundHalfEven (q * (10 : Rat) ^ p) : Int) : Rat) / (10 : Rat) ^ p - q| ≤ 1 / (2 * (10 : Rat) ^ p) := by
+  have hpos : (0 : Rat) < (10 : Rat) ^ p := by positivity
+  have h := C19_round_error (q * (10 : Rat) ^ p)
+  have : ((roundHalfEven (q * (10 : Rat) ^ p) : Int) : Rat) / (10 : Rat) ^ p - q =
+      (((roundHalfEven (q * (10 : Rat) ^ p) : Int) : Rat) - q * (10 : Rat) ^ p) / (10 : Rat) ^ p := by
+    field_simp
+  rw [this, abs_div, abs_of_pos hpos, div_le_div_iff₀ hpos (by positivity)]
+  calc |((roundHalfEven (q * (10 : Rat) ^ p) : Int) : Rat) - q * (10 : Rat) ^ p| * (2 * (10 : Rat) ^ p)
+      ≤ (1/2) * (2 * (10 : Rat) ^ p) := by
+        apply mul_le_mul_of_nonneg_right h (by positivity)
+    _ = 1 * (10 : Rat) ^ p := by ring
+
+/-! ### sorting coefficients -/
+
+theorem insertDesc_perm (e : Nat × SNum) (l : List (Nat × SNum)) : (insertDesc e l).Perm (e :: l) := by
+  induction l with
+  | nil => simp [insertDesc]
+  | cons h t ih =>
+    simp only [insertDesc]
+    split
+    · exact List.Perm.refl _
+    · exact (List.Perm.cons h ih).trans (List.Perm.swap e h t)
+
+theorem C19_sort_perm (l : List (Nat × SNum)) : (sortDesc l).Perm l := by
+  unfold sortDesc
+  suffices ∀ acc : List (Nat × SNum), (l.foldl (fun acc e => insertDesc e acc) acc).Perm (l.reverse ++ acc) by
+    have := this []
+    simp only [List.append_nil] at this
+    exact this.trans (List.reverse_perm l)
+  induction l with
+  | nil => intro acc; simp
+  | cons e l ih =>
+    intro acc
+    simp only [List.foldl_cons, List.reverse_cons, List.append_assoc, List.singleton_append]
+    exact (ih _).trans (List.Perm.append_left _ (insertDesc_perm e acc))
+
+def DescSorted (l : List (Nat × SNum)) : Prop := l.Pairwise (fun a b => a.2.mag ≥ b.2.mag)
+
+theorem insertDesc_sorted (e : Nat × SNum) (l : List (Nat × SNum)) (h : DescSorted l) : DescSorted (insertDesc e l) := by
+  induction l with
+  | nil => simp [insertDesc, DescSorted]
+  | cons x t ih =>
+    unfold DescSorted at h ⊢
+    simp only [insertDesc]
+    rw [List.pairwise_cons] at h
+    split
+    · rename_i hgt
+      rw [List.pairwise_cons]
+      refine ⟨?_, List.pairwise_cons.mpr h⟩
+      intro b hb
+      rcases List.mem_cons.mp hb with rfl | hb
+      · exact le_of_lt hgt
+      · exact le_trans (h.1 b hb) (le_of_lt hgt)
+    · rename_i hle
+      rw [List.pairwise_cons]
+      refine ⟨?_, ih h.2⟩
+      intro b hb
+      have := (insertDesc_perm e t).mem_iff.mp hb
+      rcases List.mem_cons.mp this with rfl | hb'
+      · exact not_lt.mp hle
+      · exact h.1 b hb'
+
+theorem C19_sort_sorted (l : List (Nat × SNum)) : DescSorted (sortDesc l) := by
+  unfold sortDesc
+  suffices ∀ acc : List (Nat × SNum), DescSorted acc → DescSorted (l.foldl (fun acc e => insertDesc e acc) acc) from
+    this [] (by simp [DescSorted])
+  induction l with
+  | nil => intro acc h; exact h
+  | cons e l ih => intro acc h; exact ih _ (insertDesc_sorted e acc h)
+
+/-! ### a linear combination -/
+
+/-- the (index, coefficient) pairs `write_lincomb` walks over: in index order, or sorted by magnitude -/
+def elemsOf (o : Opts) (coeffs : List SNum) : List (Nat × SNum) :=
+  let elems := (List.range coeffs.length).zip coeffs
+  if o.sortCoefficients != 0 && o.sortCoefficients ≤ coeffs.length then sortDesc elems else elems
+
+theorem writeLincomb_eq (o : Opts) (p : Nat) (coeffs : List SNum) :
+    writeLincomb o p coeffs = String.join ((lincombToks o (elemsOf o coeffs) 0 true).map (LTok.render p)) := rfl
+
+theorem mem_range_zip (coeffs : List SNum) (e : Nat × SNum) (h : e ∈ (List.range coeffs.length).zip coeffs) :
+    coeffs[e.1]? = some e.2 := by
+  obtain ⟨i, c⟩ := e
+  rw [List.mem_iff_getElem] at h
+  obtain ⟨k, hk, hke⟩ := h
+  simp only [List.getElem_zip, List.getElem_range, Prod.mk.injEq] at hke
+  simp only [List.length_zip, List.length_range, min_self] at hk
+  obtain ⟨rfl, rfl⟩ := hke
+  simp [hk]
+
+/-- every pair the renderer walks over is a coefficient with its own variable index — also after sorting -/
+theorem C19_elems_own_index (o : Opts) (coeffs : List SNum) : ∀ e ∈ elemsOf o coeffs, coeffs[e.1]? = some e.2 := by
+  intro e he
+  unfold elemsOf at he
+  simp only at he
+  split at he
+  · exact mem_range_zip coeffs e ((C19_sort_perm _).mem_iff.mp he)
+  · exact mem_range_zip coeffs e he
+
+def termsOf : List LTok → List (Nat × SNum)
+  | [] => []
+  | .term i c _ :: r => (i, c) :: termsOf r
+  | .ell :: r => termsOf r
+
+/-- the elements at positions outside the skip range, in order -/
+def shownFrom (o : Opts) : List (Nat × SNum) → Nat → List (Nat × SNum)
+  | [], _ => []
+  | e :: rest, no => if rangeContains o.skipAxes no then shownFrom o rest (no+1) else e :: shownFrom o rest (no+1)
+
+theorem termsOf_append (a b : List LTok) : termsOf (a ++ b) = termsOf a ++ termsOf b := by
+  induction a with
+  | nil => rfl
+  | cons t a ih => cases t <;> simp [termsOf, ih]
+
+/-- exactly the positions outside the skip range are printed, in order, each as (index, coefficient) -/
+theorem C19_lincomb_shown (o : Opts) (elems : List (Nat × SNum)) (no : Nat) (fs : Bool) :
+    termsOf (lincombToks o elems no fs) = shownFrom o elems no := by
+  induction elems generalizing no fs with
+  | nil => rfl
+  | cons e rest ih =>
+    obtain ⟨i, c⟩ := e
+    simp only [lincombToks, shownFrom]
+    split
+    · rw [termsOf_append, ih]
+      cases fs <;> simp [termsOf]
+    · simp [termsOf, ih]
+
+theorem C19_term_is_own_coefficient (o : Opts) (coeffs : List SNum) :
+    ∀ e ∈ termsOf (lincombToks o (elemsOf o coeffs) 0 true), coeffs[e.1]? = some e.2 := by
+  intro e he
+  rw [C19_lincomb_shown] at he
+  have hsub : ∀ (l : List (Nat × SNum)) (no : Nat), ∀ x ∈ shownFrom o l no, x ∈ l := by
+    intro l
+    induction l with
+    | nil => intro no x hx; simp [shownFrom] at hx
+    | cons y l ih =>
+      intro no x hx
+      simp only [shownFrom] at hx
+      split at hx
+      · exact List.mem_cons_of_mem _ (ih _ x hx)
+      · rcases List.mem_cons.mp hx with rfl | hx
+        · exact List.mem_cons_self
+        · exact List.mem_cons_of_mem _ (ih _ x hx)
+  exact C19_elems_own_index o coeffs e (hsub _ _ e he)
+
+/-- nothing is dropped silently: if the tokens do not show every element, they contain the ellipsis -/
+theorem C19_lincomb_no_silent_drop (o : Opts) (elems : List (Nat × SNum)) (no : Nat)
+    (h : shownFrom o elems no ≠ elems) : LTok.ell ∈ lincombToks o elems no true := by
+  induction elems generalizing no with
+  | nil => simp [shownFrom] at h
+  | cons e rest ih =>
+    obtain ⟨i, c⟩ := e
+    simp only [lincombToks, shownFrom] at h ⊢
+    split
+    · simp
+    · rename_i hns
+      rw [if_neg hns] at h
+      exact List.mem_cons_of_mem _ (ih (no+1) (fun he => h (by rw [he])))
+
+/-! ### rows of a matrix -/
+
+def rowsOfToks : List RTok → List (List SNum × SNum)
+  | [] => []
+  | .row _ r b _ :: t => (r, b) :: rowsOfToks t
+  | .vell :: t => rowsOfToks t
+
+def shownRowsFrom (o : Opts) : List (List SNum × SNum) → Nat → List (List SNum × SNum)
+  | [], _ => []
+  | e :: rest, no => if rangeContains o.skipRows no then shownRowsFrom o rest (no+1) else e :: shownRowsFrom o rest (no+1)
+
+theorem rowsOfToks_append (a b : List RTok) : rowsOfToks (a ++ b) = rowsOfToks a ++ rowsOfToks b := by
+  induction a with
+  | nil => rfl
+  | cons t a ih => cases t <;> simp [rowsOfToks, ih]
+
+theorem C19_rows_shown (o : Opts) (total : Nat) (rows : List (List SNum × SNum)) (no : Nat) (fs : Bool) :
+    rowsOfToks (rowToks o total rows no fs) = shownRowsFrom o rows no := by
+  induction rows generalizing no fs with
+  | nil => rfl
+  | cons e rest ih =>
+    obtain ⟨r, b⟩ := e
+    simp only [rowToks, shownRowsFrom]
+    split
+    · rw [rowsOfToks_append, ih]
+      cases fs <;> simp [rowsOfToks]
+    · simp [rowsOfToks, ih]
+
+theorem C19_rows_no_silent_drop (o : Opts) (total : Nat) (rows : List (List SNum × SNum)) (no : Nat)
+    (h : shownRowsFrom o rows no ≠ rows) : RTok.vell ∈ rowToks o total rows no true := by
+  induction rows generalizing no with
+  | nil => simp [shownRowsFrom] at h
+  | cons e rest ih =>
+    obtain ⟨r, b⟩ := e
+    simp only [rowToks, shownRowsFrom] at h ⊢
+    split
+    · simp
+    · rename_i hns
+      rw [if_neg hns] at h
+      exact List.mem_cons_of_mem _ (ih (no+1) (fun he => h (by rw [he])))
+
+/-! ### the DOT export of a tree -/
+
+theorem C19_dot_node_statements (nodes : List (ANode SAff)) : (nodes.map dotNodeStmt).length = nodes.length := by
+  simp
+
+end AV.Fmt
+
 namespace AV
+open AV.Fmt
+variable {β : Type}
+
+/-- for the arena of a tree with distinct indices: one edge statement per non-root node, and the statement of node `c`
+    under parent `p` carries the label `l` of the slot of `p` that holds `c` -/
+theorem C19_dot_edges (t : ITree β) (hnd : t.indices.Nodup) :
+    (dotEdges t.toArena).length = t.size - 1 ∧
+    ∀ e ∈ dotEdges t.toArena, ∃ pn ∈ t.toArena, pn.idx = e.1 ∧ pn.children[e.2.2]? = some (some e.2.1) := by
+  obtain ⟨r, rest, harena, hroot, _, hrest⟩ := C12_arena_one_root t
+  have hmirror := C12_links_mirror t hnd
+  -- every node with a parent finds its parent record, and that record lists it
+  have hfind : ∀ b ∈ t.toArena, ∀ p, b.parent = some p →
+      ∃ pn ∈ t.toArena, t.toArena.find? (fun x => x.idx == p) = some pn ∧ pn.idx = p ∧ some b.idx ∈ pn.children := by
+    intro b hb p hp
+    unfold ITree.toArena at hb
+    rw [ITree.toArenaAux_eq_subs, List.mem_map] at hb
+    obtain ⟨sb, hsb, rfl⟩ := hb
+    rcases ITree.subs_up t none sb hsb with h1 | ⟨sq', h1, h2, h3⟩
+    · rw [h1] at hp; simp [ITree.record] at hp
+    · have hpa : sq'.1.idx = p := by
+        simp only [ITree.record] at hp; rw [h2] at hp; exact Option.some.inj hp
+      have hmem : sq'.1.record sq'.2 ∈ t.toArena := by
+        unfold ITree.toArena; rw [ITree.toArenaAux_eq_subs]; exact List.mem_map.mpr ⟨sq', h1, rfl⟩
+      cases hf : t.toArena.find? (fun x => x.idx == p) with
+      | none =>
+        have := List.find?_eq_none.mp hf _ hmem
+        simp [ITree.record, hpa] at this
+      | some pn =>
+        have hpn := List.find?_some hf
+        have hpnm := List.mem_of_find?_eq_some hf
+        simp only [beq_iff_eq] at hpn
+        refine ⟨pn, hpnm, rfl, hpn, ?_⟩
+        have hbm : sb.1.record sb.2 ∈ t.toArena := by
+          unfold ITree.toArena; rw [ITree.toArenaAux_eq_subs]; exact List.mem_map.mpr ⟨sb, hsb, rfl⟩
+        exact (hmirror pn hpnm _ hbm).mp (by rw [hp, hpn])
+  constructor
+  · -- count
+    unfold dotEdges
+    rw [harena]
+    have hlen : t.size = (r :: rest).length := by rw [← harena, C12_arena_len t]
+    rw [hlen]
+    simp only [List.filterMap_cons, hroot, List.length_cons, Nat.add_sub_cancel]
+    rw [← harena]
+    have : ∀ (l : List (ANode β)), (∀ b ∈ l, b ∈ t.toArena ∧ b.parent.isSome = true) →
+        (l.filterMap (fun nd => match nd.parent with
+          | none => none
+          | some p => match t.toArena.find? (fun x => x.idx == p) with
+            | none => none
+            | some pn => some (p, nd.idx, pn.children.findIdx (fun c => c == some nd.idx)))).length = l.length := by
+      intro l
+      induction l with
+      | nil => intro _; rfl
+      | cons b l ih =>
+        intro hall
+        obtain ⟨hbm, hbp⟩ := hall b (by simp)
+        cases hp : b.parent with
+        | none => rw [hp] at hbp; simp at hbp
+        | some p =>
+          obtain ⟨pn, _, hf, _, _⟩ := hfind b hbm p hp
+          simp only [List.filterMap_cons, hp, hf, List.length_cons]
+          rw [ih (fun x hx => hall x (List.mem_cons_of_mem _ hx))]
+    exact this rest (fun b hb => ⟨by rw [harena]; exact List.mem_cons_of_mem _ hb, hrest b hb⟩)
+  · intro e he
+    unfold dotEdges at he
+    rw [List.mem_filterMap] at he
+    obtain ⟨b, hb, hbe⟩ := he
+    cases hp : b.parent with
+    | none => rw [hp] at hbe; simp at hbe
+    | some p =>
+      obtain ⟨pn, hpnm, hf, hpi, hch⟩ := hfind b hb p hp
+      rw [hp] at hbe
+      simp only [hf, Option.some.injEq] at hbe
+      subst hbe
+      refine ⟨pn, hpnm, hpi, ?_⟩
+      simp only
+      have hlt : pn.children.findIdx (fun c => c == some b.idx) < pn.children.length :=
+        List.findIdx_lt_length_of_exists ⟨some b.idx, hch, by simp⟩
+      rw [List.getElem?_eq_getElem hlt]
+      have := List.findIdx_getElem (w := hlt)
+      simp only [beq_iff_eq] at this
+      rw [this]
+
 end AV
